@@ -1,4 +1,8 @@
-(* M-PyEq: pdtable.proxy._equal_or_same on the scalars a data frame hands out through itertuples:
+(* M-PyEq: pdtable.proxy._equal_or_same on the scalars a data frame hands out through itertuples.
+   DOMAIN: cells that are int, bool, float (python or numpy), str, a naive pd.Timestamp /
+   datetime, or one of the four missing values.  Other scalar types (Decimal, Fraction, complex,
+   timedelta, time-zone-aware timestamps, ...) have their own == against numbers and timestamps,
+   which is NOT modelled: they are [POther], equal only to an identical [POther].  Containers are outside.
        a == b or a is b or (pd.isna(a) and pd.isna(b))
    with python's == on numbers written out: int, bool and float compare by exact mathematical
    value (10 == 10.0, True == 1, 2**53 + 1 != float(2**53)); NaN equals nothing; None, NaN, NaT and
@@ -8,13 +12,13 @@ From PdV Require Export Text.
 Local Open Scope Z_scope.
 
 Inductive pyval :=
-| PInt (z : Z)              (* python int / numpy integer (any size) *)
+| PInt (z : Z)              (* python int (any size) / numpy integer, as the repaired code compares them: by exact value *)
 | PBool (b : bool)
 | PFloat (bits : N)         (* python float / numpy floating, NaN included *)
 | PStr (s : str)
 | PDate (ns : Z)            (* pd.Timestamp *)
 | PNone | PNaT | PNA        (* the other missing values *)
-| POther (tag : N).         (* any other object; two are == exactly when they carry the same tag *)
+| POther (tag : N).         (* an object of another type (see DOMAIN); modelled as == only to the same object *)
 
 (* the exact value of a float *)
 Inductive num := NNaN | NInf (neg : bool) | NFin (m e : Z).     (* NFin m e stands for m * 2^e *)
@@ -78,8 +82,10 @@ Definition equal_or_same (a b : pyval) : bool :=
   if is_missing a || is_missing b then is_missing a && is_missing b
   else match py_eq a b with Some r => r | None => false end.
 
-(* before the repair: a == b or a is b or (isna(a) and isna(b)); None = the exception that
-   Table.equals turns into False for the whole comparison *)
+(* before the pd.NA repair: a == b or a is b or (isna(a) and isna(b)); None = the exception that
+   Table.equals turns into False for the whole comparison.  This describes the old code on PYTHON
+   numbers; on numpy scalars the old == rounded to a common type (the separate, third repair), which
+   this definition does not reproduce *)
 Definition equal_or_same_unrepaired (a b : pyval) : option bool :=
   match py_eq a b with
   | None => None
